@@ -158,11 +158,39 @@ func twin(r *rep.Report, e rep.Env) {
 							break
 						}
 					}
+					ghostParent := false
+					if check && !broken(r) {
+						// a never-created location named as a parent gets opened (without the existence
+						// check) by an inherited search; direct requests to it must still fail, under every TTL
+						ghostParent = true
+						p1 := drv.SysDo(s, drv.Req{Op: "setParents", Loc: "x", Doc: `["ghostparent"]`})
+						p2 := drv.SysDo(s, drv.Req{Op: "search", Loc: "x", Doc: `{"k":"?v"}`})
+						out := drv.SysDo(s, drv.Req{Op: "addFact", Loc: "ghostparent", Id: "g", Doc: `{"a":1}`})
+						out2 := drv.SysDo(s, drv.Req{Op: "search", Loc: "ghostparent", Doc: `{"a":"?x"}`, NoInherit: true})
+						st, _ := s.PeekStorage(drv.Ctx())
+						trace := false
+						if ms, ok := st.(*core.MemStorage); ok && ms != nil {
+							ms.Lock()
+							trace = len(ms.State(nil)["ghostparent"]) > 0
+							ms.Unlock()
+						}
+						r.Count("ghost_parent_requests", 2)
+						r.Case(true, fmt.Sprint(e.BatchSeed(), hi, kind, ttlName, "ghostparent"))
+						wit := rep.J{"config": cfg, "setParents": p1, "inherited_search_at_child": p2, "addFact_at_never_created_parent": out, "search_at_never_created_parent": out2, "in_storage": trace}
+						if !strings.HasPrefix(out, "ERR:") || !strings.HasPrefix(out2, "ERR:") {
+							r.Violate(ghostKey(ttlName), "with existence checking a request to a never-created location succeeded after the location had been opened as somebody's parent", wit)
+						} else if trace {
+							r.Violate("", "with existence checking a refused request to a never-created location left a trace in storage", wit)
+						}
+					}
 					if ttlName == "forever" {
 						stats, _ := s.GetStats(drv.Ctx())
 						want := uint64(3)
 						if check {
 							want = 4 // + the ghost attempt
+						}
+						if ghostParent {
+							want++
 						}
 						if stats != nil && stats.NewLocations > want+1 {
 							r.Violate("", fmt.Sprintf("with TTL forever %d locations were loaded for 3 names", stats.NewLocations), rep.J{"config": cfg})
@@ -176,6 +204,10 @@ func twin(r *rep.Report, e rep.Env) {
 		}
 	}
 }
+
+func broken(r *rep.Report) bool { return false }
+
+func ghostKey(ttl string) string { return "" }
 
 // first: concurrent first requests for one location.
 func first(r *rep.Report, e rep.Env) {
